@@ -22,8 +22,23 @@ def sh(cmd, **kw):
     return subprocess.run(cmd, shell=True, text=True, capture_output=True, **kw)
 
 
-def cargo_test(wt, extra=""):
-    r = sh(f"cd {wt} && CARGO_NET_OFFLINE=true cargo test --workspace --no-fail-fast --offline {extra} 2>&1", timeout=3600)
+def demo_flags(demo_path):
+    """the demo may need a non-default build; it says so in its leading comment (RUSTFLAGS="…", --features force-32bits,
+    --release): those are honoured for the demo runs only (the existing suite is always run with the pinned default command)"""
+    head = "".join(l for l in open(demo_path).read().splitlines(True)[:40] if l.lstrip().startswith("//"))
+    env, args = "", ""
+    m = re.search(r'RUSTFLAGS="([^"]+)"', head)
+    if m:
+        env = f'RUSTFLAGS="{m.group(1)}" '
+    if "--features force-32bits" in head:
+        args += " --features force-32bits"
+    if re.search(r"cargo test[^\n]*--release", head):
+        args += " --release"
+    return env, args
+
+
+def cargo_test(wt, extra="", env=""):
+    r = sh(f"cd {wt} && {env}CARGO_NET_OFFLINE=true cargo test --workspace --no-fail-fast --offline {extra} 2>&1", timeout=3600)
     passed = sum(int(x) for x in re.findall(r"test result: \w+\. (\d+) passed", r.stdout))
     failed = sum(int(x) for x in re.findall(r"test result: \w+\. \d+ passed; (\d+) failed", r.stdout))
     compiled = "error: could not compile" not in r.stdout and "error[" not in r.stdout
@@ -47,14 +62,16 @@ def main():
     try:
         os.makedirs(os.path.join(wt, "tests"), exist_ok=True)
         shutil.copy(os.path.join(sd, "demo.rs"), os.path.join(wt, "tests", "demo.rs"))
-        p0, f0, c0, o0 = cargo_test(wt, "--test demo")
+        denv, dargs = demo_flags(os.path.join(sd, "demo.rs"))
+        res["demo_flags"] = (denv + dargs).strip()
+        p0, f0, c0, o0 = cargo_test(wt, "--test demo" + dargs, denv)
         res["demo_without_patch"] = {"passed": p0, "failed": f0, "compiled": c0}
         r = sh(f"git -C {wt} apply {os.path.abspath(os.path.join(sd, 'patch.diff'))}")
         if r.returncode:
             res["error"] = "patch does not apply: " + r.stderr[:300]
             print(json.dumps(res))
             return
-        p1, f1, c1, o1 = cargo_test(wt, "--test demo")
+        p1, f1, c1, o1 = cargo_test(wt, "--test demo" + dargs, denv)
         res["demo_with_patch"] = {"passed": p1, "failed": f1, "compiled": c1}
         os.remove(os.path.join(wt, "tests", "demo.rs"))
         p2, f2, c2, o2 = cargo_test(wt)
